@@ -102,50 +102,7 @@ Definition bound_names (a : maction) : list string :=
 Definition names_ok (d : mdomain) (a : maction) : bool :=
   forallb (fun v => negb (dmem (d_consts d) v)) (bound_names a).
 
-(* ---------- Operator.apply after repair D40 (commit 40d673f): the antecedent of a conditional effect is evaluated
-   WITH the problem objects.  Local corrected copies of Model.Exec.{antecedents_hold, apply_universal, apply_op}
-   (the shared file still passes no object table; see requests/C03.md): same text except for [objs]. ---------- *)
-Section ApplyO.
-  Variable dom : mdomain.
-  Variable eps : float.
-
-  Definition antecedents_hold_o (objs : option objects) (g : ggroup) (s : state) : result bool :=
-    match gg_ante g with
-    | None => Ok true
-    | Some a => eval_g dom eps objs s a
-    end.
-
-  Definition apply_universal_o (ga : gaction) (objs : option objects) (uorder : list nat) (prev cur : state)
-    : result state :=
-    match objs with
-    | None => Ok cur
-    | Some os =>
-        foldM (fun cur1 o =>
-                 foldM (fun cur2 ue =>
-                          if is_sub_type (d_types dom) (snd o) (ue_ty ue) then
-                            let pm := dset (ga_pm ga) (ue_var ue) (fst o) in
-                            let ce := ue_ce ue in
-                            do g <- ground_group dom pm (Some (ce_ante ce)) (ce_disc ce) (ce_num ce);
-                            do h <- antecedents_hold_o (Some os) g prev;
-                            if h then apply_group_m prev cur2 g else Ok cur2
-                          else Ok cur2)
-                       (reorder (ma_univ (ga_action ga)) uorder) cur1)
-              os cur
-    end.
-
-  Definition apply_op_o (ga : gaction) (objs : option objects) (allow skip : bool)
-             (order uorder : list nat) (prev : state) : result state :=
-    do okb <- (if skip then Ok true else is_applicable dom eps objs ga prev);
-    if negb okb && negb allow then Err EValue
-    else
-      do cur <- foldM (fun cur g =>
-                         do h <- (if skip then Ok true else antecedents_hold_o objs g prev);
-                         if h then apply_group_m prev cur g else Ok cur)
-                      (reorder (ga_groups ga) order) prev;
-      apply_universal_o ga objs uorder prev cur.
-End ApplyO.
-
-(* ---------- the firing view of apply_op_o ---------- *)
+(* ---------- the firing view of apply_op ---------- *)
 Section Fire.
   Variable dom : mdomain.
   Variable eps : float.
@@ -160,7 +117,7 @@ Section Fire.
 
   (* what visiting a group contributes: nothing when its antecedent is false *)
   Definition fire (prev : state) (g : ggroup) : result (list (list gprim)) :=
-    do h <- antecedents_hold_o dom eps (Some objs) g prev;
+    do h <- antecedents_hold dom eps (Some objs) g prev;
     if h then do ps <- gprims_of prev g; Ok [ps] else Ok [].
 
   (* what visiting (object, universal effect) contributes *)
